@@ -62,16 +62,14 @@ def check_step(cls, hist, op, keys, vals):
             return ({"case": case, "diagnosis": "return-value:" + op[0],
                      "detail": "list %r; model returns %r, implementation %r" % (before, rm[1], ri[1])},
                     None, 0, L)
-    inv = C.invariant(o)
-    if inv:
-        return ({"case": case, "diagnosis": "two-representations-diverge:" + op[0],
-                 "detail": "list before %r: %s" % (before, inv)}, None, 0, L)
+    inv = C.invariant(o)        # diagnostic text only; the accessors below decide
     st = C.concrete(o)
     try:
         oi = C.observe(o, keys, vals)
     except Exception as e:  # noqa: BLE001
         return ({"case": case, "diagnosis": "accessor-raised:" + op[0],
-                 "detail": "list before %r, expected after %r: %s: %s" % (before, L, type(e).__name__, e)},
+                 "detail": "list before %r, expected after %r: %s: %s%s"
+                           % (before, L, type(e).__name__, e, ("; internal: " + inv) if inv else "")},
                 None, 0, L)
     om = M.observe(L, keys, vals)
     diff = [k for k in om if om[k] != oi.get(k)]
@@ -79,7 +77,8 @@ def check_step(cls, hist, op, keys, vals):
         k = diff[0]
         return ({"case": case, "diagnosis": "view-differs:%s:%s" % (op[0], k.split(":")[0]),
                  "detail": "list before %r; model list after %r; accessor %s: model %r, "
-                           "implementation %r" % (before, L, k, om[k], oi.get(k))}, None, 0, L)
+                           "implementation %r%s" % (before, L, k, om[k], oi.get(k),
+                                                    ("; internal: " + inv) if inv else "")}, None, 0, L)
     if C.concrete(o) != st:
         return ({"case": case, "diagnosis": "accessors-mutate:" + op[0],
                  "detail": "reading the views changed the container"}, None, 0, L)
